@@ -88,7 +88,7 @@ CHECKS = {
  "C09": dict(
    category="exploration", design="DESIGN.md §5 C09",
    technique="property-based testing: generated programs x valid generated histories with invalid host calls injected at generated positions; lockstep differential against the same history without the injections, plus view/save equality around each rejected call",
-   text="Each of 28 kinds of invalid host call (also calls whose last argument only is of a refused type) is injected at generated positions (mid-paragraph, choice point, end, after an error, in named flows). Each must return Err without panicking, leave the polled view and the canonical save unchanged, and the injected history must behave exactly like the clean one to its end. Exploration only.",
+   text="Each of 29 kinds of invalid host call (also calls whose last argument only is of a refused type, and repeated continues while an external is unbound) is injected at generated positions (mid-paragraph, choice point, end, after an error, in named flows). Each must return Err without panicking, leave the polled view and the canonical save unchanged, and the injected history must behave exactly like the clean one to its end. Exploration only.",
    note="Trusted: harness view/save polling (itself part of both runs). Removing an absent flow/observer and jumping to knot.nostitch (approximated by the engine, as in the reference) may succeed and are then not judged."),
  "C16": dict(
    category="exploration", design="DESIGN.md §5 C16",
